@@ -64,7 +64,8 @@ example : run step init [10, 10, 9, 10] = [(10,0), (10,1), (10,2), (10,3)] := by
 
 /-- tie G: the body of `generate` as translated from /repo equals the model. -/
 theorem gen_step_eq : Bobo.Gen.IdGen.step = step := by
-  funext s now; unfold Bobo.Gen.IdGen.step step; split <;> (try split) <;> simp_all <;> omega
+  funext s now; unfold Bobo.Gen.IdGen.step step; repeat' split
+  all_goals first | rfl | (simp_all <;> omega) | simp_all
 
 /-! ### the formatted strings (helper lemmas in Lemmas/IdFmt.lean) -/
 
